@@ -324,6 +324,22 @@ add('bitfield-char-width-9', 'decl', 'struct b7 { unsigned char x : 9; };')
 add('bitfield-short-width-17', 'decl', 'struct b8 { short x : 17; };')
 add('bitfield-long-width-65', 'decl', 'struct b9 { long x : 65; };')
 add('bitfield-bool-width-2', 'decl', 'struct b10 { _Bool x : 2; };')
+# width constraints of bit-fields as a product: type x named/unnamed x struct/union x position in the member list (seeded round 8:
+# the width check skipped for unnamed bit-fields)
+_bfn = 0
+for _t, _bits in (('unsigned char', 8), ('signed char', 8), ('short', 16), ('unsigned short', 16), ('int', 32), ('unsigned', 32), ('long', 64), ('unsigned long long', 64), ('_Bool', 1)):
+    for _nm in ('x', ''):
+        for _su in ('struct', 'union'):
+            for _pos, _fmt in (('alone', '%(t)s %(n)s : %(w)d;'), ('after-member', 'int a; %(t)s %(n)s : %(w)d;'), ('later-in-list', '%(t)s a : 1, %(n)s : %(w)d;'),
+                               ('first-in-list', '%(t)s %(n)s : %(w)d, b : 1;'), ('before-member', '%(t)s %(n)s : %(w)d; int z;')):
+                _bfn += 1
+                add('bitfield-width/%s/%s/%s/%s/one-too-wide' % (_t.replace(' ', '-'), 'named' if _nm else 'unnamed', _su, _pos), 'decl',
+                    '%s bw%d { %s };' % (_su, _bfn, _fmt % dict(t=_t, n=_nm, w=_bits + 1)))
+    for _su in ('struct', 'union'):
+        _bfn += 1
+        add('bitfield-width/%s/unnamed/%s/negative' % (_t.replace(' ', '-'), _su), 'decl', '%s bw%d { int a; %s : -1; };' % (_su, _bfn, _t))
+        _bfn += 1
+        add('bitfield-width/%s/named/%s/zero-later-in-list' % (_t.replace(' ', '-'), _su), 'decl', '%s bw%d { %s a : 1, b : 0; };' % (_su, _bfn, _t))
 add('fixed-enum-value-one-past-max', 'decl', 'enum fe1 : unsigned char { FE1 = 256 };', lang=False)
 add('fixed-enum-value-negative-for-unsigned', 'decl', 'enum fe2 : unsigned { FE2 = -1 };', lang=False)
 add('fixed-enum-implicit-value-overflows', 'decl', 'enum fe3 : unsigned char { FE3 = 255, FE3b };', lang=False)
